@@ -5,10 +5,6 @@ pub type Narsese = NarseseValue<Term, Sentence, Task>;
 /// (<= isize::MAX) then cannot overflow.
 pub spec const HEAD_CAP: usize = usize::MAX / 2;
 
-/// A2: `str::chars().count()` is the number of chars; a str is at most isize::MAX bytes long
-pub assume_specification<'a>[ <core::str::Chars<'a> as Iterator>::count ](it: core::str::Chars<'a>) -> (r: usize)
-    ensures r == it.remaining().len(), r <= isize::MAX as usize;
-
 /// side conditions on a format that the parser needs in order to make progress; checked on the
 /// three shipped constants by unit `tables`
 pub open spec fn format_wf(f: &NarseseFormat<&str>) -> bool {
@@ -23,6 +19,14 @@ pub open spec fn format_wf(f: &NarseseFormat<&str>) -> bool {
 
 pub open spec fn kw_at(env: Seq<char>, i: int, kw: Seq<char>) -> bool {
     0 <= i && i + kw.len() <= env.len() && env.subrange(i, i + kw.len()) == kw
+}
+
+/// what nar_dev_utils' `[char]::starts_with_str` really computes on `env[i..]`: an empty keyword
+/// always matches; otherwise the rest of the input must be non-empty and agree with the keyword
+/// on their common length - so a keyword that is CUT OFF by the end of input also "matches".
+pub open spec fn lenient_kw_at(env: Seq<char>, i: int, kw: Seq<char>) -> bool {
+    kw.len() == 0 || (0 <= i < env.len()
+        && forall|j: int| 0 <= j < kw.len() && i + j < env.len() ==> env[i + j] == kw[j])
 }
 
 pub open spec fn mid_empty(m: MidParseResult) -> bool {
@@ -56,7 +60,7 @@ impl<'a> ParseState<'a, &'a str> {
     }
     /// some copula of the format occurs in the environment at position i
     pub open spec fn copula_at(&self, i: int) -> bool {
-        exists|k: int| 0 <= k < 13 && kw_at(self.env@, i, #[trigger] copula_seq(self.format)[k])
+        exists|k: int| 0 <= k < 13 && lenient_kw_at(self.env@, i, #[trigger] copula_seq(self.format)[k])
     }
     /// "maximal munch": an atom name ends only at the end of input, at a character that cannot
     /// be part of a name, or where a copula starts
